@@ -2144,3 +2144,67 @@ impl TypeChecker {
         self.env.get_identifier_type(name)
     }
 }
+
+// verification hook (property C06/C07): canonical, sorted text of the type checker's session state
+#[cfg(feature = "verif")]
+impl TypeChecker {
+    /// sections `(label, sorted entries)`; no spans, no addresses
+    pub(crate) fn verif_c06_digest(&self) -> Vec<(&'static str, Vec<String>)> {
+        let env: Vec<String> = self
+            .env
+            .verif_c06_entries()
+            .into_iter()
+            .map(|(n, k, t)| format!("{n}:{k}:{t}"))
+            .collect();
+        let mut structs: Vec<String> = self
+            .structs
+            .iter()
+            .map(|(n, info)| {
+                format!(
+                    "{}{{{}}}",
+                    n,
+                    info.fields
+                        .iter()
+                        .map(|(f, (_, t))| format!("{f}:{t}"))
+                        .collect::<Vec<_>>()
+                        .join(",")
+                )
+            })
+            .collect();
+        structs.sort();
+        let (base_dims, derived_dims) = self.registry.verif_c06_entries();
+        vec![
+            ("tc.env", env),
+            ("tc.structs", structs),
+            ("tc.dims.base", base_dims),
+            ("tc.dims.derived", derived_dims),
+            ("tc.ns.type", self.type_namespace.verif_c06_names()),
+            ("tc.ns.value", self.value_namespace.verif_c06_names()),
+        ]
+    }
+
+    /// structural part: pending constraints and type parameters that must be empty between inputs
+    pub(crate) fn verif_c06_structure(&self) -> String {
+        format!(
+            "tparams={}",
+            self.registry.introduced_type_parameters.len()
+        )
+    }
+}
+
+// verification hook (properties C02/C16): crate-visible names of the solver's types and the counter of
+// the fresh-variable generator (read-only)
+#[cfg(feature = "verif")]
+pub(crate) mod verif_c02 {
+    pub(crate) use super::constraints::{
+        Constraint, ConstraintSet, ConstraintSolverError, TrivialResolution,
+    };
+    pub(crate) use super::substitutions::{ApplySubstitution, Substitution, SubstitutionError};
+}
+
+#[cfg(feature = "verif")]
+impl TypeChecker {
+    pub(crate) fn verif_c02_name_counter(&self) -> u64 {
+        self.name_generator.verif_c02_counter()
+    }
+}
